@@ -6,6 +6,7 @@ import PercevalModel.Lemmas.C10
 import PercevalModel.Lemmas.C10More
 import PercevalModel.Lemmas.C10Ext
 import PercevalModel.Lemmas.C10Hist
+import PercevalModel.Lemmas.C10HistR
 import PercevalModel.Num.GQ
 
 open Matrix
@@ -2447,5 +2448,187 @@ theorem history_heralds_reserved_fails_on_current_code :
     have hc : e.side.cs = 4 := hcs
     rw [hc, hconn] at this
     revert this; decide
+
+/-! # Extension 5: a history-built processor as the ADDED object (`Model/C10HistR.lean`)
+
+`RightWF` — herald positions distinct and inside the circuit, `m = circuit_size − #heralds` — was a hypothesis on the
+added processor, checked by the harness.  Below it is a theorem about every processor obtained by a history of
+successful public calls in which no `remove_port` takes a herald port off the OUTPUT side (`historyKeeps`): the
+counter `_n_heralds` stays in step with the herald ports (`HerCount`), the herald ports sit on distinct modes of the
+circuit (invariant of extension 3), hence `#heralds ≤ circuit_size`, `_n_moi ≥ 0` and `m + #heralds = circuit_size`.
+Without the side condition the statement is false for the code (and the repaired code): `remove_port` leaves
+`_n_heralds`, `_n_moi` and the mode type alone — proved counter-example below. -/
+
+/-- one accepted `add` keeps `_n_heralds` in step with the herald ports of `_out_ports` -/
+theorem addObj_count (e e' : Exp) (r : Side) (raw : RawMap) (keep : Bool) (hi : ExpInv e) (hc : HerCount e)
+    (hrh : r.comp = false → r.heralds = heraldsOf r.outp)
+    (h : addObj true e r raw keep = .ok e') : HerCount e' := by
+  unfold addObj at h
+  split at h
+  · cases h
+  · rename_i e1 h1
+    obtain ⟨hi1, -, -, -, -⟩ := defaultM_inv e e1 _ hi h1
+    obtain ⟨hc1, -⟩ := defaultM_count e e1 _ hc h1
+    split at h
+    · cases h
+    · rename_i res hres
+      cases h
+      have hl : e1.side.conn.length = e1.side.cs := by
+        show (e1.mt.map MT.isPhot).length = e1.cs
+        rw [List.length_map, hi1.cs_eq]
+      obtain ⟨-, hheq, -⟩ := compose_keeps_heralds_reserved .all true true e1.side r raw keep res hl hrh
+        hi1.reserved hres
+      show (if r.comp then e1.nher else e1.nher + r.heralds.length) = (heraldsOf res.outp).length
+      rw [← hheq]
+      cases hcmp : r.comp with
+      | true =>
+        obtain ⟨-, hh, -⟩ := heralds_unchanged_component .all true true e1.side r raw keep res hcmp rfl
+          (HeraldPortsReserved.covered hi1.reserved) hres
+        rw [hh]
+        exact hc1
+      | false =>
+        obtain ⟨-, hh, -⟩ := heralds_appended .all true true e1.side r raw keep res hcmp rfl
+          (HeraldPortsReserved.covered hi1.reserved) (hrh hcmp) hres
+        rw [hh]
+        have : e1.nher = (heraldsOf e1.outp).length := hc1
+        simp [this]
+        rfl
+
+theorem stepH_count (e e' : Exp) (op : HOp) (hi : ExpInv e) (hc : HerCount e) (hok : op.rightOK)
+    (hk : op.keepsHeraldOut e = true) (h : stepH true e op = .ok e') : HerCount e' := by
+  cases op with
+  | herald mode expected name => exact addHerald_count e e' mode expected name hc h
+  | port mode size name loc => exact addPort_count e e' mode size name loc hc h
+  | rmport mode loc => exact removePort_count e e' mode loc hc hk h
+  | det mode name => exact addDet_count e e' mode name hc h
+  | setps ps => cases h; exact hc
+  | add r raw keep => exact addObj_count e e' r raw keep hi hc hok h
+
+theorem runH_count (ops : List HOp) (e0 e : Exp) (hok : ∀ op ∈ ops, op.rightOK)
+    (hi0 : ExpInv e0) (hc0 : HerCount e0) (hk : keepsHeraldOut true e0 ops = true)
+    (h : runH true e0 ops = .ok e) : ExpInv e ∧ HerCount e := by
+  induction ops generalizing e0 with
+  | nil => cases h; exact ⟨hi0, hc0⟩
+  | cons op rest ih =>
+    unfold runH at h
+    unfold keepsHeraldOut at hk
+    split at h
+    · cases h
+    · rename_i e1 h1
+      simp only [h1, Bool.and_eq_true] at hk
+      exact ih e1 (fun o ho => hok o (List.mem_cons_of_mem _ ho))
+        (stepH_inv e0 e1 op hi0 (hok op List.mem_cons_self) h1)
+        (stepH_count e0 e1 op hi0 hc0 (hok op List.mem_cons_self) hk.1 h1) hk.2 h
+
+/-- **`RightWF` of the added processor, derived from its own history**: a processor built by any sequence of
+successful public calls none of which takes a herald port off the output side has distinct herald positions inside
+its circuit, `m = circuit_size − #heralds`, a non-negative `_n_moi` and `_n_heralds = len(heralds)` -/
+theorem history_right_wf (m : Option Nat) (ops : List HOp) (e : Exp)
+    (hok : ∀ op ∈ ops, op.rightOK) (hk : historyKeeps m ops = true) (h : history true m ops = .ok e) :
+    RightWF e.side ∧ 0 ≤ e.nmoi ∧ e.nher = e.side.heralds.length ∧ e.side.m + e.side.heralds.length = e.side.cs := by
+  unfold history at h
+  unfold historyKeeps at hk
+  split at h
+  · cases h
+  · rename_i e0 h0
+    simp only [h0] at hk
+    have hi0 := new_inv m e0 h0
+    have hc0 : HerCount e0 := by
+      unfold Exp.new at h0
+      split at h0
+      · cases h0; rfl
+      · split_ifs at h0; cases h0; rfl
+    obtain ⟨hi, hc⟩ := runH_count ops e0 e hok hi0 hc0 hk h
+    obtain ⟨hnn, hwf⟩ := rightWF_of_inv hi hc
+    exact ⟨hwf, hnn, hc, (hwf rfl).2.2⟩
+
+/-- what the model answers on three short lives: `Processor(2)`, `add_herald(0, 1)`, `remove_port(0, OUTPUT)` leaves
+m = 1, circuit_size = 2 and NO herald (not a well-formed right-hand side: 1 + 0 ≠ 2); removing the herald port on the
+input side only keeps everything; `Processor(1)`, `add_herald(0, 1)`, `remove_port(0)`, `add_herald(0, 1)` is accepted
+and leaves `m = −1` (read through `Exp.side`, whose `m` is a natural number, that processor looks well formed: this is
+why `history_right_wf` also concludes `0 ≤ _n_moi`) -/
+theorem herald_removal_outcomes :
+    ((history true (some 2) [.herald 0 1 none, .rmport 0 .output]).toOption.map fun e =>
+      (e.nmoi, e.cs, e.side.heralds, rightWFb e.side)) = some (1, 2, [], false) ∧
+    historyKeeps (some 2) [.herald 0 1 none, .rmport 0 .output] = false ∧
+    ((history true (some 2) [.herald 0 1 none, .rmport 0 .input]).toOption.map fun e =>
+      (e.nmoi, e.cs, e.side.heralds, rightWFb e.side)) = some (1, 2, [(0, 1)], true) ∧
+    historyKeeps (some 2) [.herald 0 1 none, .rmport 0 .input] = true ∧
+    ((history true (some 1) [.herald 0 1 none, .rmport 0 .inout, .herald 0 1 none]).toOption.map fun e =>
+      (e.nmoi, e.cs, e.side.heralds, rightWFb e.side)) = some (-1, 1, [(0, 1)], true) :=
+  ⟨by decide, by decide, by decide, by decide, by decide⟩
+
+/-- **the side condition cannot be dropped**: after `remove_port` on the output side of a heralded mode the processor
+is not a well-formed right-hand side although every call succeeded -/
+theorem history_right_wf_fails_after_herald_removal :
+    ¬ (∀ (m : Option Nat) (ops : List HOp) (e : Exp), (∀ op ∈ ops, op.rightOK) → history true m ops = .ok e →
+        RightWF e.side) := by
+  intro H
+  have h1 := herald_removal_outcomes.1
+  cases hh : history true (some 2) [.herald 0 1 none, .rmport 0 .output] with
+  | error x => rw [hh] at h1; cases h1
+  | ok e =>
+    rw [hh] at h1
+    simp only [Except.toOption, Option.map_some, Option.some.injEq, Prod.mk.injEq] at h1
+    have hwf := H (some 2) _ e (by
+      intro op hop
+      simp only [List.mem_cons, List.not_mem_nil, or_false] at hop
+      rcases hop with rfl | rfl <;> trivial) hh
+    rw [← rightWFb_iff, h1.2.2.2] at hwf
+    cases hwf
+
+/-- **heralds appended, between two histories — no hypothesis left**: the left processor is the result of ANY
+history, the added processor the result of ANY history (herald ports removed or not): after an accepted add the
+circuit grew by one mode per herald the added processor still lists, `heralds` is the old dictionary followed by
+`circuit_size + i ↦ expectedᵢ` in the order of the added processor's heralds, `detectors` is extended by the
+detectors on its herald positions, and every mode listed in `heralds` is reserved -/
+theorem heralds_appended_between_histories (m : Option Nat) (ops : List HOp) (e e' : Exp)
+    (hok : ∀ op ∈ ops, op.rightOK) (hh : history true m ops = .ok e)
+    (f1 : RFlags) (f2 f3 : Bool) (raw : RawMap) (keep : Bool) (res : Result)
+    (h : compose f1 f2 f3 e.side e'.side raw keep = .ok res) :
+    res.cs = e.cs + (heraldsOf e'.outp).length ∧
+    res.heralds = heraldsOf e.outp ++
+      (List.range (heraldsOf e'.outp).length).zipWith (fun i h => (e.cs + i, h.2)) (heraldsOf e'.outp) ∧
+    res.dets = e.dets ++ (heraldsOf e'.outp).map (fun h => e'.dets.getD h.1 none) ∧
+    (∀ hm ∈ res.heralds, connectible res.cs res.conn (hm.1 : Int) = false) :=
+  heralds_appended_after_history m ops e hok hh f1 f2 f3 e'.side raw keep res rfl rfl h
+
+/-- **the wiring, between two histories**: the added processor is the result of a history that keeps its herald
+ports; after an accepted add — any mapping syntax — the matrix is `A * left` with `A[ka, kb] = C[va, vb]` on wired
+pairs and the identity's row and column on every mode that is not wired.  `RightWF` is no longer assumed. -/
+theorem compose_end_to_end_between_histories (m' : Option Nat) (ops' : List HOp) (e' : Exp)
+    (hok' : ∀ op ∈ ops', op.rightOK) (hk' : historyKeeps m' ops' = true) (hh' : history true m' ops' = .ok e')
+    (f1 : RFlags) (f2 f3 : Bool) (l : Side) (raw : RawMap) (keep : Bool) (res : Result)
+    (h : compose f1 f2 f3 l e'.side raw keep = .ok res)
+    (C : Matrix (Fin e'.side.cs) (Fin e'.side.cs) R) (left : Matrix (Fin res.cs) (Fin res.cs) R) :
+    ∃ A : Matrix (Fin res.cs) (Fin res.cs) R,
+      composeMat res.cs res.first e'.side.cs res.perm true C left = A * left ∧
+      (∀ (ka kb : Fin res.cs) (va vb : Fin e'.side.cs),
+        (ka.val, va.val) ∈ permInput l e'.side res.map → (kb.val, vb.val) ∈ permInput l e'.side res.map →
+        A ka kb = C va vb) ∧
+      (∀ (i j : Fin res.cs),
+        ((∀ v, (i.val, v) ∉ permInput l e'.side res.map) ∨ (∀ v, (j.val, v) ∉ permInput l e'.side res.map)) →
+        A i j = if i = j then 1 else 0) :=
+  compose_end_to_end_processor f1 f2 f3 l e'.side raw keep res rfl
+    (history_right_wf m' ops' e' hok' hk' hh').1 h C left
+
+/-- **no PERM assertion, between two histories**: an offset or list mapping of a history-built processor (herald
+ports kept) onto a left processor without post-selection never ends in `AssertionError`: every such mapping that
+`resolve` accepts is legal for `generate_permutation`, imported heralded modes included -/
+theorem compose_between_histories_never_assertion (m' : Option Nat) (ops' : List HOp) (e' : Exp)
+    (hok' : ∀ op ∈ ops', op.rightOK) (hk' : historyKeeps m' ops' = true) (hh' : history true m' ops' = .ok e')
+    (f1 : RFlags) (f2 f3 : Bool) (l : Side) (raw : RawMap) (keep : Bool)
+    (hraw : ∀ items, raw ≠ .ofDict items) (hps : l.ps = none) :
+    compose f1 f2 f3 l e'.side raw keep ≠ .error .assertion :=
+  compose_int_list_never_assertion f1 f2 f3 l e'.side raw keep hraw
+    (history_right_wf m' ops' e' hok' hk' hh').1 hps
+
+/-- non-vacuity: a life that declares a herald, imports a heralded processor and removes an ordinary port keeps its
+herald ports; it ends as a well-formed processor with two heralds -/
+example :
+    historyKeeps (some 3) [.herald 2 1 none, .port 0 1 "a" .inout, .add exRp (.ofInt 0) true, .rmport 0 .inout] = true ∧
+    ((history true (some 3) [.herald 2 1 none, .port 0 1 "a" .inout, .add exRp (.ofInt 0) true,
+        .rmport 0 .inout]).toOption.map fun e => (e.nmoi, e.cs, e.side.heralds, rightWFb e.side)) =
+      some (2, 4, [(2, 1), (3, 1)], true) := by decide
 
 end PM.C10
